@@ -159,7 +159,8 @@ class S3Compatible(Backend, short_name='S3C'):
         date = f'{now:%Y%m%d}'
 
         canonical_headers = {
-            'host': self.host,
+            # The Host header as HTTPX sends it (lower case, no default port)
+            'host': httpx.URL(self.url).netloc.decode('ascii'),
             'x-amz-content-sha256': payload_digest,
             'x-amz-date': x_amz_date,
         }
